@@ -262,6 +262,13 @@ def default_replay(ctx, key):
     k = key
     if re.match(r'C0[24]:paired|C04:paired', k):
         return None
+    if re.match(r'C16:arith:negate', k):
+        def mirror_first(model, p):
+            ok, path, note = native.replay_arith_mirror(ctx, model, p['name'])
+            return (ok, path, note) if ok else native.replay_arith(ctx, model, p['name'])
+        return mirror_first
+    if re.match(r'C10:point-estimate', k):
+        return lambda model, p: native.replay_point_estimate(ctx, p['name'])
     if re.match(r'(C01|C06:arith|C10:arithmetic|C10:quantile|C16:arith)', k):
         return lambda model, p: native.replay_arith(ctx, model, p['name'])
     if re.match(r'C16:unpaired:negate', k):
